@@ -6,6 +6,7 @@
 import Rox.Props.C06Base
 import Rox.Lemmas.NsScope
 import Rox.Lemmas.ElemNs
+import Rox.Lemmas.AttrNs
 
 namespace Rox.Props.C06
 open Rox Rox.Lemmas
@@ -54,5 +55,23 @@ theorem element_xml_prefix (txt : Bytes) (c c' : Ctx) (e : EndKind) (r : Range)
     ∃ (n : NodeData) (name : Span) (attrs nss : Range),
       c'.doc.nodes[c.doc.nodes.size]? = some n ∧ n.kind = .element (some 0) name attrs nss :=
   processElement_xml_prefix txt c c' e r he hb hn hx h
+
+/-- **The attributes of an element and their namespaces** (every context the parser can be in):
+when a start tag is completed, the new element's attribute list is exactly the pending attributes —
+those of the tag that are not namespace declarations — in source order, each with its local name and
+its normalised value, and in the namespace its prefix resolves to in the element's own scope: no
+namespace for an unprefixed attribute (the default namespace does not apply to attributes), the XML
+namespace for `xml:`, otherwise the element's own declaration of the prefix and else the parent's
+resolution of it; and every prefix used is declared (otherwise the tag is rejected). -/
+theorem attribute_namespaces (txt : Bytes) (c c' : Ctx) (e : EndKind) (r : Range)
+    (he : e = .open ∨ e = .empty) (hb : BInv c) (hn : NsOk c.doc c.nsStartIdx)
+    (h : processElement txt c e r = .ok c') :
+    ∃ (n : NodeData) (tn : Option Nat) (name : Span) (attrs nss : Range),
+      c'.doc.nodes[c.doc.nodes.size]? = some n ∧ n.kind = .element tn name attrs nss ∧
+      ((c'.doc.attrs.toList.drop attrs.1).take (attrs.2 - attrs.1)).map
+          (fun a => (a.nsIdx, a.localName, a.value)) =
+        c.curAttrs.map (fun a => (attrNsSpec c a.pfx.bytes, a.loc, a.value)) ∧
+      (∀ a ∈ c.curAttrs, a.pfx.bytes ≠ [] → (attrNsSpec c a.pfx.bytes).isSome = true) :=
+  processElement_attributes txt c c' e r he hb hn h
 
 end Rox.Props.C06
